@@ -1,7 +1,7 @@
 (* C17 — broken forms are rejected with a located diagnosis; nothing ever crashes.
    Only statements closed by exact (or a direct conjunction of lemmas), with Print Assumptions beneath each. *)
 Require Import PX.Base.Str PX.Base.PyStr PX.Model.Warnings PX.Model.Bind PX.Model.Headers PX.Gen.Headers PX.Spec.Nest PX.Model.Rows PX.Proofs.Rows
-  PX.Model.Tree PX.Proofs.Tree PX.Gen.Choices PX.Model.Choices PX.Proofs.Choices PX.Model.Params PX.Proofs.Params.
+  PX.Model.Tree PX.Proofs.Tree PX.Gen.Choices PX.Model.Choices PX.Proofs.Choices PX.Model.Params PX.Proofs.Params PX.Model.Names PX.Model.Scanner PX.Model.RefText PX.Proofs.RefText.
 
 (* unbalanced begin/end: rejected at the right row (2 + rows above, blank rows counted) wherever the error sits, or by name *)
 Theorem C17_unbalanced_located : forall pre ts, Nest pre ts ->
@@ -40,6 +40,23 @@ Print Assumptions C17_parameters.
 Theorem C17_reference_syntax : forall ts, ref_check false ts = true <-> well_formed ts.
 Proof. exact ref_check_iff. Qed.
 Print Assumptions C17_reference_syntax.
+
+(* ... and on the raw cell text, through the modelled scanner: for EVERY NCName the text ${name} (and ${last-saved#name}) is scanned
+   as exactly one PYXFORM_REF token holding the whole text, so the check accepts it and no character of the reference is lost *)
+Theorem C17_wellformed_reference_is_one_token : forall name, ncname_plain name ->
+  scan ([36;123]%N ++ name ++ [125]%N) = ([(n_ref, [36;123]%N ++ name ++ [125]%N)], [])
+  /\ ref_syntax_ok ([36;123]%N ++ name ++ [125]%N) = true.
+Proof. exact (fun name H => conj (reference_is_one_token name H) (reference_accepted name H)). Qed.
+Print Assumptions C17_wellformed_reference_is_one_token.
+Theorem C17_last_saved_reference_is_one_token : forall name, ncname_plain name ->
+  scan ([36;123]%N ++ LAST_SAVED ++ name ++ [125]%N) = ([(n_ref, [36;123]%N ++ LAST_SAVED ++ name ++ [125]%N)], [])
+  /\ ref_syntax_ok ([36;123]%N ++ LAST_SAVED ++ name ++ [125]%N) = true.
+Proof. exact (fun name H => conj (last_saved_reference_is_one_token name H) (last_saved_reference_accepted name H)). Qed.
+Print Assumptions C17_last_saved_reference_is_one_token.
+Theorem C17_unclosed_reference_refused :
+  ref_syntax_ok [36;123;113]%N = false /\ ref_syntax_ok [36;123;113;32;125]%N = false /\ ref_syntax_ok [36;123;36;123;113;125;125]%N = false.
+Proof. exact unclosed_refused. Qed.
+Print Assumptions C17_unclosed_reference_refused.
 
 (* headers: process_header fails (IndexError in the code) exactly for a single-colon header whose last token is jr ... *)
 Theorem C17_header_crash_iff : forall aliases columns dc h,
